@@ -121,6 +121,7 @@ HEADER = '''(* GENERATED by translate/bands.py from /repo/homonim - do not edit.
    Decision skeleton of MatchedPairReader._match_pair_bands: n / m = number of selected source / reference bands, force, sany / rany = any(wavelengths)
    as Python evaluates it, over = some matched distance exceeds the tolerance, short = fewer than min(n, m) bands matched by wavelength. *)
 From Coq Require Import Arith Bool.
+From HVgen Require NormalFormCases.     (* the source was read through the normal form that file ties to its proved model *)
 
 Definition translation_failed : bool := %s.
 '''
